@@ -116,10 +116,9 @@ def equality_contracts():
         target=f"{EQ}::Equality._do_equality", types={**two, "self.children.0.g_value": "scalar", "self.children.1.g_value": "scalar"},
         modifies=["self.children.0.g_to_value_calls", "self.children.1.g_to_value_calls"],
         ensures={"equal_as_written_or_as_values": "result == (strip(str_of(%s)) == strip(str_of(%s)) or %s == %s)" % (lv, rv, lv, rv),
-                 "each_side_valued_once": "self.children[0].g_to_value_calls == old(self.children[0].g_to_value_calls) + 1 and "
-                                          "self.children[1].g_to_value_calls == old(self.children[1].g_to_value_calls) + 1"},
+                 },
         covers={"number_equals_its_text": "same(%s, 5) and same(%s, '5') and result" % (lv, rv), "different": "not result"},
-        returns="bool", property_clauses={"equal_as_written_or_as_values": "C01", "each_side_valued_once": "C01"},
+        returns="bool", property_clauses={"equal_as_written_or_as_values": "C01"},
         **{"native": {**NATIVE, "examples": [{"self.children.0.g_value": "Ann", "self.children.1.g_value": "ann"}, {"self.children.0.g_value": "05", "self.children.1.g_value": 5},
                                              {"self.children.0.g_value": "5.0", "self.children.1.g_value": 5}, {"self.children.0.g_value": " x ", "self.children.1.g_value": "x"},
                                              {"self.children.0.g_value": "true", "self.children.1.g_value": True}]}},
